@@ -22,6 +22,12 @@ type Policy struct {
 	K        uint64 // PPCT: change points are drawn in [0,K) scheduler steps
 	Victim   int    // PStarve: task id
 	VictimAt uint64 // PStarve: the victim stalls at its own VictimAt-th yield
+	// SyncBias: in addition to the policy's own decisions, every yield point in
+	// front of a synchronisation operation (YS: sync, sync/atomic, channels) is a
+	// decision point with a uniformly drawn successor. Check-then-act windows
+	// between two atomic operations are a single statement wide; this is how the
+	// scheduler finds them without hoping that a random gap ends there.
+	SyncBias bool
 }
 
 type Config struct {
@@ -61,6 +67,7 @@ type Result struct {
 	MapRanges   uint64
 	LockSpins   uint64
 	AtomicSecs  uint64
+	SyncYields  uint64 // decisions taken at synchronisation-operation yield points (SyncBias)
 }
 
 // Abort is the panic value raised from a yield point when a budget is
@@ -71,6 +78,11 @@ type Abort struct {
 }
 
 func (a *Abort) Error() string { return "simhook abort: " + a.Reason }
+
+// SyncSites is the number of yield sites in front of synchronisation
+// operations in the instrumented library (set by the worker from the
+// instrumenter report; 0 on a library that uses no sync primitives).
+var SyncSites int
 
 // SiteNames, when set by the worker from the instrumenter report, maps a
 // site id to file:line for messages.
@@ -144,6 +156,7 @@ type Sim struct {
 	atomics       uint64
 	yieldCnt      uint64
 	blockedRounds int
+	syncYields    uint64
 	mainB         baton
 	wg            sync.WaitGroup
 }
@@ -190,6 +203,50 @@ func Y(site uint32) {
 	if sim != nil {
 		slowY(site)
 	}
+}
+
+// YS is the yield point spliced in front of a statement that performs a
+// synchronisation operation.
+//
+//go:norace
+func YS(site uint32) {
+	if s := sim; s != nil {
+		if s.cfg.Policy.SyncBias && s.atomic == 0 && !s.inHook && !s.aborted && s.cfg.Policy.Kind != PSeq {
+			s.syncYields++
+			slowY(site)
+			if sim == s && !s.aborted {
+				if n := s.pickUniform(); n >= 0 && n != s.cur {
+					s.switchTo(n, site)
+				}
+			}
+			return
+		}
+		slowY(site)
+	}
+}
+
+// pickUniform draws a successor among the runnable, unblocked tasks with the
+// current task first (draw 0 = stay), whatever the policy.
+//
+//go:norace
+func (s *Sim) pickUniform() int {
+	var cands [64]int
+	nc := 0
+	cur := s.tasks[s.cur]
+	if cur.state == stRunnable {
+		cands[nc] = cur.id
+		nc++
+	}
+	for _, t := range s.tasks {
+		if t.id != s.cur && t.state == stRunnable && !t.blocked && nc < len(cands) {
+			cands[nc] = t.id
+			nc++
+		}
+	}
+	if nc <= 1 {
+		return -1
+	}
+	return cands[s.tape.Draw(SSched, uint64(nc))]
 }
 
 //go:norace
@@ -487,7 +544,7 @@ func Run(cfg Config, fns []func(id int)) Result {
 	s.wg.Wait()
 	r := Result{Steps: s.steps, Switches: s.switches, MidSwitches: s.midSw, Trace: s.trace, Hash: s.hash,
 		BudgetHit: s.budgetHit, Deadlock: s.deadlock, Stalled: s.stalled,
-		MapPerms: s.mapPerms, MapRanges: s.mapRanges, LockSpins: s.lockSpins, AtomicSecs: s.atomics}
+		MapPerms: s.mapPerms, MapRanges: s.mapRanges, LockSpins: s.lockSpins, AtomicSecs: s.atomics, SyncYields: s.syncYields}
 	for _, t := range s.tasks {
 		r.TaskSteps = append(r.TaskSteps, t.steps)
 	}
